@@ -641,10 +641,22 @@ impl Suite for Asm {
             let start = text.len();
             let k = rng.gen_range(1..7);
             let mut body = String::new();
-            for _ in 0..k {
+            // now and then a toggle region is open inside the body and ends (or starts) in the middle of an instruction line:
+            // the instruction lines are verbatim anyway
+            let toggles = rng.gen_range(0..4) == 0;
+            for j in 0..k {
                 body.push_str(nl);
                 if rng.gen_range(0..8) == 0 {
                     body.push_str(nl); // a blank line between instructions
+                }
+                if toggles && j == 0 {
+                    body.push_str(["  {pasfmt off} mov   eax,  ebx", "  // pasfmt off", "  mov  eax,1 {pasfmt off}"][rng.gen_range(0..3)]);
+                    body.push_str(nl);
+                }
+                if toggles && j == k - 1 {
+                    body.push_str(["  {pasfmt on} ", "  (* pasfmt on *)   ", "{pasfmt on}"][rng.gen_range(0..3)]);
+                    body.push_str(ASM_LINES[rng.gen_range(0..ASM_LINES.len())].trim_start());
+                    continue;
                 }
                 body.push_str(ASM_LINES[rng.gen_range(0..ASM_LINES.len())]);
             }
